@@ -11,7 +11,7 @@ mod tap;
 use std::io::Write;
 
 fn usage() -> ! {
-    eprintln!("usage: mtharness tables | gen <prop> <tier> <seed> <out> | exec <sessions> <log> | meta <prop> <tier> <seed> <out> | seeds <sessions> <outdir> [max] | apisess <dir>... <out>");
+    eprintln!("usage: mtharness tables | gen <prop> <tier> <seed> <out> | exec <sessions> <log> | meta <prop> <tier> <seed> <out> | seeds <sessions> <outdir> [max] | apisess <dir>... <out> | metaon <prop> <sessions> <seed> <out>");
     std::process::exit(2)
 }
 
@@ -144,6 +144,16 @@ fn main() {
                 }
             }
             eprintln!("{}", n);
+        }
+        "metaon" => {
+            // metaon <prop> <sessions> <seed> <out>: the model-free relations of C10 / C02 on given sessions
+            if a.len() < 6 {
+                usage();
+            }
+            let text = std::fs::read_to_string(&a[3]).unwrap_or_default();
+            let sessions = exec::Session::parse_all(&text).unwrap_or_default();
+            let seed: u64 = a[4].parse().unwrap_or(1);
+            std::fs::write(&a[5], props::meta_on(&a[2], &sessions, seed)).unwrap();
         }
         "meta" => {
             if a.len() < 6 {
